@@ -366,6 +366,18 @@ Section DedupFacts.
     destruct (path_eqb (g_core g) (g_out g)); reflexivity.
   Qed.
 
+  (* the rerun after a history in which another client of the same core may have been generated in between:
+     PARTIAL (F09h) *)
+  Theorem rerun_history_partial : forall g found touched,
+    dedup_total san g = true -> wf_layout san g = true -> guard_F09h g touched = true ->
+    run_noforce san g (existing_after san g found touched) = (ROk, existing_after san g found touched).
+  Proof.
+    intros g found touched Hd Hwf G. unfold existing_after, guard_F09h in *.
+    destruct touched; simpl in G.
+    - destruct (gap_inits g); [|discriminate]. rewrite app_nil_r. apply rerun_full; assumption.
+    - rewrite app_nil_r. apply rerun_full; assumption.
+  Qed.
+
   (* conversely: a common *.py file whose text is not what would be generated now is always reported *)
   Theorem rerun_detects : forall g existing p c c',
     In (p, c) (under (g_out g) (tree_temp san g (existing_registry g existing))) -> is_py p = true ->
@@ -462,10 +474,24 @@ Lemma regression_F09e :
   fst (run_noforce idS g_F09e (tree_force idS g_F09e [])) = ROk.
 Proof. repeat split; vm_compute; reflexivity. Qed.
 
+Definition s_c1 : str := [99;49].
+Definition s_x : str := [120].
+Definition g_F09h : gen_input :=
+  {| g_client := s_c1; g_out := [s_c1]; g_core := [s_c1; s_x; s_core]; g_core_given := true;
+     g_shared := true; g_ops := [(s_default, s_foo)]; g_codes := [404] |}.
+Lemma refuted_F09h :
+  guard_F09h g_F09h true = false /\ dedup_total idS g_F09h = true /\ wf_layout idS g_F09h = true /\
+  gap_inits g_F09h = [([s_c1; s_x; s_init], CEmpty)] /\
+  rerun_differing idS g_F09h (existing_after idS g_F09h [] true) = [[s_c1; s_x; s_init]] /\
+  fst (run_noforce idS g_F09h (existing_after idS g_F09h [] true)) = RDifferences /\
+  fst (run_noforce idS g_F09h (existing_after idS g_F09h [] false)) = ROk.
+Proof. repeat split; vm_compute; reflexivity. Qed.
+
 Lemma modes_nonvacuous :
   dedup_total idS g_plain = true /\ wf_layout idS g_plain = true /\
   length (tree_force idS g_plain []) = 15%nat /\
-  dedup_total idS g_F09d = true /\ wf_layout idS g_F09d = true.
+  dedup_total idS g_F09d = true /\ wf_layout idS g_F09d = true /\
+  guard_F09h g_F09d true = true /\ guard_F09h g_F09h false = true.
 Proof. repeat split; vm_compute; reflexivity. Qed.
 
 (* ================================================================================================
